@@ -59,7 +59,7 @@ def gen_params(rng, variant=None):
         {"prod": "PROD", "assets": "ASSETS", "shots": "SHOTS", "output": "OUTPUT", "export": "EXPORT", "renders": "RENDERS"},
         {"prod": "work", "assets": "lib", "shots": "film", "output": "out", "export": "exp", "renders": "img"},
         {"prod": "P", "assets": "A", "shots": "S", "output": "O", "export": "E", "renders": "R"}])
-    p["mapping_style"] = "demo" if ident else rng.choice(["demo", "identity", "swap", "demo"])
+    p["mapping_style"] = "demo" if ident else rng.choice(["demo", "identity", "swap", "demo", "partial"])
     p["constants"] = True if ident else rng.random() < 0.7
     p["explicit_intermediates"] = False if ident else rng.random() < 0.4
     return p
@@ -193,11 +193,20 @@ def build(p):
         st = p["states"]
         # one-to-one, sid-side values reuse path-side names (a rotation): NOT idempotent
         m_state = {st[i]: st[(i + 1) % len(st)] for i in range(len(st))}
+    elif p["mapping_style"] == "partial":
+        # a mapping table need not list every value: an unlisted value is its own folder name (still one-to-one)
+        m_proj = {x.upper(): x for x in p["projects"][:1]}
+        m_type = {F["assets"]: ca, F["shots"]: cs, F["renders"]: cr, "EDITS": "w9"}
+        m_state = {"WORK": p["states"][0]}
     else:
         m_proj = {x.upper(): x for x in p["projects"]}
         m_type = {F["assets"]: ca, F["shots"]: cs, F["renders"]: cr, "EDITS": "w9"}
         names = ["WORK", "PUBLISH", "FINAL"]
         m_state = {names[i]: s for i, s in enumerate(p["states"])}
+
+    def pv(m, sid_values):
+        """path-side values of a key: the listed folder names, then the unlisted values as they are"""
+        return list(m.keys()) + [v for v in sid_values if v not in m.values()]
     root = "{@project_root}"
 
     def fs(levels_path, fname=None):
@@ -250,8 +259,8 @@ def build(p):
     PT.append((root_type, fs([ph(K["project"])])))
     inv = lambda m: {v: k for k, v in m.items()}   # noqa
     fs_kp = {
-        "{%s}" % K["state"]: "{%s:%s}" % (K["state"], _alt(list(m_state.keys()))),
-        "{%s}" % K["project"]: "{%s:%s}" % (K["project"], _alt(list(m_proj.keys()))),
+        "{%s}" % K["state"]: "{%s:%s}" % (K["state"], _alt(pv(m_state, p["states"]))),
+        "{%s}" % K["project"]: "{%s:%s}" % (K["project"], _alt(pv(m_proj, p["projects"]))),
         "{%s:ASSETSDIR}" % K["type"]: "{%s:%s}" % (K["type"], _alt([inv(m_type)[ca]])),
         "{%s:SHOTSDIR}" % K["type"]: "{%s:%s}" % (K["type"], _alt([inv(m_type)[cs]])),
         "{%s:RENDERSDIR}" % K["type"]: "{%s:%s}" % (K["type"], _alt([inv(m_type)[cr]])),
@@ -262,7 +271,7 @@ def build(p):
     if p.get("third_config_narrow"):
         m_state3 = dict(list(m_state3.items())[:1])       # this archive-like tree only holds entities of the first state
     fs_kp3 = dict(fs_kp)
-    fs_kp3["{%s}" % K["state"]] = "{%s:%s}" % (K["state"], _alt(list(m_state3.keys())))
+    fs_kp3["{%s}" % K["state"]] = "{%s:%s}" % (K["state"], _alt(list(m_state3.keys()) if p.get("third_config_narrow") else pv(m_state3, p["states"])))
     return {"sid_templates": T, "to_extrapolate": to_ex, "key_patterns": kp, "alias": alias, "key_types": key_types, "leaf_keys": leaf_keys,
             "narrowing": narrowing, "projects": p["projects"], "path_templates": PT, "fs_key_patterns": fs_kp,
             "path_mapping": {K["project"]: m_proj, K["type"]: m_type, K["state"]: m_state},
